@@ -10,6 +10,7 @@
   when that theorem stops checking), `c08exceptions` the rows of the two exception classes.
 -/
 import Gozod.Drv.C08
+import Gozod.Drv.C08H
 import Gozod.Model.StoreC08
 import Gozod.Gen.MethodOps
 namespace Gozod.Drv.C08T
@@ -23,7 +24,6 @@ def admits (row : MethodRow) (r : MethodResult) (cls : String) (k : Nat) : Bool 
   | .clone =>
     (cls == "derive" && !r.bag && !r.refilter && r.addsOk k) || (cls == "bagwrite" && r.bag) || (cls == "refilter" && r.refilter)
       || (cls == "derive" && r.refilter && r.addsOk k)       -- a re-made slice that happens to keep every check
-      || (cls == "rebuild" && !r.bag && r.addsOk k)          -- the harness' name table calls it constructor-built (ZodFunction.Input / Output): the source says Clone
   | .structcopy => cls == "copymeta"
   | .self => if row.regRecv then cls == "metaself" else (cls == "self" || cls == "alias" || cls == "access")
   | .ctor | .wrap => cls == "rebuild" || cls == "wrap" || cls == "derive" || cls == "refilter" || cls == "access" || cls == "alias"
@@ -137,7 +137,10 @@ def lookO (mem : List (Nat × Nat)) (h : Loc → Option Cell) (x : OSchema) : St
     | none => "-"
     | some ks => "{" ++ ",".intercalate ((sortedKeys ks).map toString) ++ "}"
   let ca := match o.v.catchall with | none => "-" | some c => toString (memIdx c)
-  let content := s!"{shs}|{exc}|{o.v.mode}|{if o.v.isPartial then 1 else 0}|{ca}"
+  let req := match o.req with
+    | none => "-"
+    | some ks => "{" ++ ",".intercalate ((sortedKeys ks).map toString) ++ "}"
+  let content := s!"{shs}|{exc}|{o.v.mode}|{if o.v.isPartial then 1 else 0}|{ca}|{req}"
   let verdicts := ",".intercalate ((List.range 32).map (fun mask =>
     let present := (List.range 5).filterMap (fun i => if (mask >>> i) % 2 == 1 then keyUniverse[i]? else none)
     match objParse o memberOk memberOpt ⟨present⟩ with
@@ -202,6 +205,7 @@ def handleObj (toks : List String) : String :=
 def handle (toks : List String) : String :=
   match toks with
   | "OBJ" :: _ => handleObj toks
+  | "HOLD" :: _ => Gozod.Drv.C08H.handleHold toks
   | ["bad"] => s!"bad:{",".intercalate badRows}\tbad:"
   | ["exceptions"] => s!"{",".intercalate exceptionRows}\t-"
   | _ =>
